@@ -215,7 +215,8 @@ class HDFOutput(Output):
                         stride=stride
                     )
                 else:
-                    array.add_property(prop_name, type=type_, stride=stride)
+                    array.add_property(prop_name, type=type_, default=default,
+                                       stride=stride)
             array.set_output_arrays(output_array)
             particles[str(name)] = array
         return particles
